@@ -465,7 +465,10 @@ fn check_main(args: &[String]) {
     // C08: an evaluation is a restart from a crash point, not a phase-1 execution
     let (evaluations_reported, distinct_reported) = match (stats.get("c08.restarts"), stats.get("c08.distinct_crash_states")) {
         (Some(r), Some(d)) if prop == "C08" => (*r as u64, *d as usize),
-        _ => (evaluations, nontrivial.len()),
+        _ => match stats.get("c06.schedules") {
+            Some(n) if prop == "C06" => (*n as u64, nontrivial.len()),
+            _ => (evaluations, nontrivial.len()),
+        },
     };
     let faults: BTreeMap<String, u64> = counters.iter().filter(|(k, _)| k.starts_with("fault.")).map(|(k, v)| (k.clone(), *v)).collect();
     let probes: BTreeMap<String, i64> = stats.clone();
